@@ -373,7 +373,8 @@ def module_query(name, params):
         it.ctx.effects.append(Event('call', guard=it.ctx.current_guard(), binders=list(it.ctx.all_binders()),
                                     node=node, extra={'fn': 'wn.' + name, 'args': bound}, pc_len=len(it.ctx.pc)))
         keyparts, parents = [], []
-        for k, v in bound.items():
+        for k in params:                   # declared parameter order: the order keywords are written in is irrelevant
+            v = bound[k]
             kp, ts = arg_key(v)
             keyparts.append(f'{k}={kp}')
             parents.extend(ts)
